@@ -12,7 +12,8 @@ ID = "C06"
 LEVEL = "exploration"
 RULE = (
     "One-contig G-genome data (homopolymers, tandem repeats; SNV / insertion / deletion / MNP variants, left-normalised, with "
-    "their shift range; 0-30% of the haplotype's variants hidden from the VCF = unrelated indels/SNVs), reads = exact haplotype "
+    "their shift range; 0-30% of the haplotype's variants hidden from the VCF = unrelated indels/SNVs, plus unrelated indels of "
+    "1-6 bases placed 1-7 bases next to SNVs), reads = exact haplotype "
     "copies decorated by G-cigar: soft and hard clips, =/X instead of M, N skips over variants, unrelated I/D, read ends anywhere "
     "a valid CIGAR allows (variants at the first/last aligned base, ends inside MNPs), variants a few bases from the contig ends "
     "(window truncated), single reads / overlapping or disjoint mates; run through whatshap.variants.ReadSetReader.read(chromosome, "
@@ -26,7 +27,8 @@ RULE = (
 )
 REQUIRED_COUNTERS = ["reader_calls", "pairs_fully_covered", "pairs_not_overlapping", "pairs_correct"]
 ASSUMPTIONS = [
-    "hidden (unrelated) variants keep the same >= 30 bp separation from VCF variants as VCF variants among themselves",
+    "hidden (unrelated) variants drawn from the variant generator keep >= 30 bp separation from VCF variants; the close unrelated indels are placed next to SNVs only",
+    "next to a close unrelated indel a missing allele is tolerated also with a reference (the re-alignment may tie); a wrong allele never is",
     "without a reference only SNVs and unshiftable indels are generated (the statement's restriction)",
 ]
 WATCHDOG = {"quick": 300, "thorough": 900}
@@ -112,6 +114,7 @@ def run_one(rng, counters):
             "edge_frac": rng.choice([0.0, 0.3, 0.6]),
             "edge_ins": rng.choice([0.0, 0.5]),
             "qual_mode": rng.choice(["const", "random"]),
+            "companions": rng.choice([0.0, 0.0, 0.4, 0.8]),
         }
         sim = genome.simulate(rng, tmp, p)
         desc = {"params": p, "use_ref": use_ref}
@@ -139,6 +142,9 @@ def run_one(rng, counters):
         for r in sim.reads:
             frags.setdefault(r["name"], []).append(r)
         vis = [(i, v) for i, v in enumerate(sim.variants[c]) if i not in sim.hidden[c]]
+        allv = sim.variants[c]
+        # visible variants with an unrelated hidden indel within 16 bases: re-alignment may legitimately tie there
+        crowded = {i for i, v in vis if any(w.hid and abs(w.pos - v.pos) <= 16 for w in allv[max(0, i - 2) : i + 3])}
         viol = []
         keys = set()
         for name, parts in frags.items():
@@ -167,13 +173,17 @@ def run_one(rng, counters):
                     counters["pairs_fully_covered"] = counters.get("pairs_fully_covered", 0) + 1
                     if r_ is None:
                         counters["pairs_none"] = counters.get("pairs_none", 0) + 1
-                        if use_ref and not partial:
+                        if i in crowded:
+                            counters["pairs_none_next_to_unrelated_indel"] = counters.get("pairs_none_next_to_unrelated_indel", 0) + 1
+                        elif use_ref and not partial:
                             viol.append({"mech": "missing-allele:" + v.kind, "msg": "fragment %s (alignments %r) fully covers %s %r (truth allele %d) but no allele was recorded (with reference)" % (name, [(pt["start"], pt["cigar"]) for pt in parts], v.kind, v.as_list(), truth)})
                     elif r_[0] != truth:
                         viol.append({"mech": "wrong-allele:" + v.kind + (":noref" if not use_ref else "") + (":partial-mate" if partial else ""),
                                      "msg": "fragment %s (alignments %r) is an exact copy of haplotype %d and fully covers %s %r: recorded allele %r, truth %d" % (name, [(pt["start"], pt["cigar"]) for pt in parts], h, v.kind, v.as_list(), r_, truth)})
                     else:
                         counters["pairs_correct"] = counters.get("pairs_correct", 0) + 1
+                        if i in crowded:
+                            counters["pairs_correct_next_to_unrelated_indel"] = counters.get("pairs_correct_next_to_unrelated_indel", 0) + 1
                     if cls.split("/")[0] != "M" or v.kind != "snv":
                         keys.add(cls + ("/ref" if use_ref else "/noref") + "/%d" % (min(9, v.pos - min(b[0] for b in touching))))
                 elif v.kind == "ins" and truth == 1 and any(_edge_insertion(pt, v) for pt in parts):
